@@ -11,6 +11,14 @@ ENGINES = [
     {"name": "core", "path": "vlib/core.py", "serves_properties": [],
      "kind_free_text": "check runner: subprocess shards, monitor counters, three-valued verdicts, "
                        "mechanism-keyed known findings, evidence and replay files"},
+    {"name": "wf+ctl", "path": "vlib/wf.py vlib/wf_tasks.py vlib/ctl.py vlib/engine.py vlib/sched_explore.py",
+     "serves_properties": ["C01", "C06", "C08", "C09"],
+     "kind_free_text": "program generator + set-valued reference interpreter + schedule controller that owns the "
+                       "executor and the scheduler event queue (DFS / random / PCT / extreme choosers)"},
+    {"name": "models", "path": "vlib/checks", "serves_properties": ["C13", "C14", "C15", "C17", "C18", "C19"],
+     "kind_free_text": "offline checkers and relation monitors over the real pure functions"},
+    {"name": "io", "path": "vlib/checks", "serves_properties": ["C16", "C34", "C35"],
+     "kind_free_text": "round-trip / cross-process differential monitors"},
 ]
 
 # id -> (engine, category, technique, level text, level note, design ref)
@@ -40,6 +48,45 @@ reg("C35", "io", "round-trip monitor on Config.get_config_dict / Config(config_d
     "Generated INI texts are loaded, converted to the two-level dict and back by the real Config; the "
     "section tree and every effective value are compared, and replace_config_dir is checked value by value.",
     "Effective value = section[key]; configs whose own interpolation fails are excluded.")
+
+SCHED_NOTE = ("Trusted: the harness-owned executor and event queue reproduce every real linearisation of completion "
+              "events (the scheduler is a single-threaded event loop; workers interact only through queue puts). "
+              "Held only for the generated program classes and schedule budgets reported in the evidence.")
+reg("C01", "wf+ctl", "differential monitor: real Scheduler (controlled schedules + real thread/process/async pools) "
+    "against a set-valued reference interpreter",
+    "Generated workflow programs over all listed forms are evaluated by the real scheduler under several controlled "
+    "completion orders and on the unmodified LocalExecutor pools (thread, process via forkserver and fork, async "
+    "twins); the returned value or raised error must be one the documented reduction rules allow.",
+    SCHED_NOTE + " Reference interpreter vlib/wf.py is trusted to encode the documented rules.")
+reg("C06", "wf+ctl", "schedule exploration (DFS-exhaustive for small programs, random/PCT beyond) with submit/settle "
+    "trace monitors", "Programs with duplicates created before/during/after the first call run under exhaustive or "
+    "sampled completion orders; at most one SUBMIT per (task hash, args hash, context), identical settlement of all "
+    "jobs of a call, one Job per (parent, expression hash).", SCHED_NOTE)
+reg("C08", "wf+ctl", "schedule exploration with a shadow resource account at the executor boundary",
+    "Held units are accounted at SUBMIT/REPORT in the harness and compared with the cap after every submission; "
+    "scheduler accounting is sampled at every queue get (never negative, zero after a successful run).", SCHED_NOTE)
+reg("C09", "wf+ctl", "schedule exploration with a dead-quiescent-state detector",
+    "Liveness restated as a state property: the controlled loop must never reach 'queue empty, nothing in flight, "
+    "workflow pending' (the state in which the real loop blocks forever); on return every job is settled.", SCHED_NOTE)
+reg("C15", "models", "pairwise key monitor on the real scheduler path against an independent call-identity model",
+    "eval_hash is captured at SUBMIT for generated signatures/calls and compared pairwise with the verdict of "
+    "inspect.signature.bind+apply_defaults minus config/JobInfo; pre-image type tags are observed by wrapping bencode "
+    "during scheduler workloads.", "Positional-vs-keyword passing is not required to collide.")
+reg("C16", "io", "cross-process differential on TypeRegistry.get_hash",
+    "The same generated value is rebuilt and hashed in 4 interpreter processes (PYTHONHASHSEED 0,1,2,random) and 3 "
+    "set insertion orders; all hashes of one value must agree.", "Values are rebuilt by the same code in each process.")
+reg("C17", "models", "hash relation monitor over generated task definitions and single mutations",
+    "Real @task/wraps_task/.options/.update_context/.partial code paths on generated source text (linecache); each "
+    "mutation kind must / must not change Task.hash, also when observed through call-time overrides.",
+    "hash_includes items are hashable.")
+reg("C18", "models", "hash separation + pickle round-trip monitor over generated expressions",
+    "Every single-field variant of a generated expression must hash differently; redun's own pickle round trip must "
+    "preserve hash, arguments, options and reset bookkeeping; an end-to-end run checks that option-only variants are "
+    "not merged.", "Equal hashes for equal fields only required for identically constructed expressions.")
+reg("C19", "models", "structural monitor on map_nested_value / iter_nested_value with an injective relabelling",
+    "Generated nested values over all supported containers and dataclass flavours are mapped by the real function; an "
+    "independent canonicaliser compares types/shape/leaves, and the leaves logged by map equal those yielded by iter.",
+    "Exact container types only.")
 
 
 def build():
